@@ -152,7 +152,7 @@ func (c *Compiled) pikeSubmatchAt(h []byte, at int) (res []int) {
 			res = []int{-2, -2}
 		}
 	}()
-	m := p.SearchWithCapturesAt(h, at)
+	m := p.SearchWithSlotTableCapturesAt(h, at) // the simulator the meta engine itself uses
 	if m == nil {
 		return nil
 	}
